@@ -84,7 +84,49 @@ func optErr(err error) string {
 
 func zbig(v *big.Int) string { return vx.ZBig(v) }
 
-func bytesT(b []byte) string { return vx.Bytes(b) }
+// patBytes is the Coq function Corr.pat: n bytes 0, 1, ..., 250, 0, 1, ... (period 251).
+func patBytes(n int) []byte {
+	b := make([]byte, n)
+	for i := range b {
+		b[i] = byte(i % 251)
+	}
+	return b
+}
+
+// bytesT prints a byte string as a Coq list. A large one that is (a few bytes ++) a prefix of the pattern (++ a few
+// bytes) is written with Corr.pat, so that a case with 2^20 bytes of data stays a short term.
+func bytesT(b []byte) string {
+	const big, edge = 16384, 64
+	if len(b) < big {
+		return vx.Bytes(b)
+	}
+	for j := 0; j <= edge; j++ {
+		k := 0
+		for j+k < len(b) && b[j+k] == byte(k%251) {
+			k++
+		}
+		if k >= big && len(b)-j-k <= edge {
+			parts := []string{}
+			if j > 0 {
+				parts = append(parts, vx.Bytes(b[:j]))
+			}
+			parts = append(parts, fmt.Sprintf("pat %d%%N", k))
+			if j+k < len(b) {
+				parts = append(parts, vx.Bytes(b[j+k:]))
+			}
+			return "(" + strings.Join(parts, " ++ ") + ")"
+		}
+	}
+	return vx.Bytes(b)
+}
+
+// natT prints a nat; a large one through N (a nat literal of a million is a deep unary term for Coq's parser).
+func natT(n int) string {
+	if n > 5000 {
+		return fmt.Sprintf("(N.to_nat %d%%N)", n)
+	}
+	return vx.Nat(n)
+}
 
 func listOfBytes(l [][]byte) string {
 	if len(l) == 0 {
@@ -168,3 +210,14 @@ func joinT(parts ...string) string { return "(" + strings.Join(parts, " ") + ")"
 
 // Go-side resource bound of the property (independent of the model): 64 KiB + 64 bytes per input byte.
 func allocBound(inputLen int) uint64 { return 65536 + 64*uint64(inputLen) }
+
+// preallocLimit is what stream.ReadBytes may allocate before it has received anything (c8478d2): the claimed length,
+// but never more than 1 MiB.
+const preallocLimit = 1 << 20
+
+// streamAllocBound is the Go-side bound for one stream read helper call on dataLen bytes of input whose length
+// argument / length prefix claims `claimed` bytes: the up-front buffer min(claimed, 1 MiB) plus the input-proportional
+// part. An allocation that follows an unbacked length field beyond 1 MiB exceeds it.
+func streamAllocBound(dataLen int, claimed uint64) uint64 {
+	return allocBound(dataLen) + min(claimed, preallocLimit)
+}
